@@ -260,6 +260,14 @@ def _cost(it):
     return per * units * len(orbs)
 
 
+def _orbit_counts(props):
+    out = {}
+    for it in props:
+        key = f"{it[1]}/{it[2]}/T={it[3]:g}" + ("/batch_only" if it[6] == "batch_only" else "")
+        out[key] = out.get(key, 0) + len(it[7])
+    return dict(sorted(out.items()))
+
+
 def bounds(tier, seed):
     its = items(tier, seed)
     props = [it for it in its if it[0] == "prop"]
@@ -271,6 +279,7 @@ def bounds(tier, seed):
         "batch_sizes": sorted({len(it[7]) for it in props}), "sp_configs": {k: SP_CFG[k] for k in sorted({it[1] for it in props if it[1] != "twobody"})},
         "sp_start_epoch": _iso(_jd0(seed)), "epoch_shifts_s": EPOCH_SHIFTS, "restart_event_fractions": [0.37, 0.5],
         "propagation_items": len(props),
+        "orbits_per_dynamics_integrator_span": _orbit_counts(props),
         "orbit_span_combinations": sum(len(it[7]) for it in props),
     }
 
@@ -397,7 +406,8 @@ class _Ctx:
         ep = fw.maxabs(got[:3], ref[:3])
         ev = fw.maxabs(got[3:], ref[3:])
         ok = ep <= tp and ev <= tv
-        self.ratio(sub, max(ep / tp, ev / tv))
+        if "event_retriggered" not in detail:  # the margin report is about the tolerances, not about known finding F-C03-1
+            self.ratio(sub, max(ep / tp, ev / tv))
         return self.res.case(sub, case, ok, nontrivial=nontrivial, signature=sig,
                              observed={"pos_err_km": ep, "vel_err_kms": ev, "state": got}, expected={"tol_km": tp, "tol_kms": tv, "state": ref},
                              outcome="within" if ok else "outside", item=self.item)
